@@ -133,7 +133,10 @@ def first_true(iterable: Iterable[T], default: T,
 def _constant(value: object) -> ast.expr:
     if (isinstance(value, (int, float, np.integer, np.floating))
             and not isinstance(value, (bool, np.bool_))
-            and value < 0):
+            and (value < 0
+                 # -0.0
+                 or (isinstance(value, (float, np.floating))
+                     and value == 0 and np.signbit(value)))):
         # ast.unparse does not parenthesize negative constants:
         # Constant(-2) ** a would be emitted as '-2 ** a', i.e. -(2 ** a).
         return ast.UnaryOp(ast.USub(),
